@@ -10,7 +10,8 @@ configuration-dependent decisions are arbitrary functions of the endpoint's hist
 attackers (arbitrary strategies; at the handshake layer: arbitrary sequences of well-framed
 messages and ChangeCipherSpec signals fed to either endpoint).
 -/
-import Gotlcp.Lemmas.TranscriptConn
+import Gotlcp.Lemmas.TranscriptHeads
+import Gotlcp.Lemmas.TranscriptDY
 import Gotlcp.Spec.TamperSpec
 import Gotlcp.Generated.Facts
 import Gotlcp.Model.TranscriptFacts
@@ -96,6 +97,207 @@ theorem C03_both_complete_same_transcript (hk : k.ok = true) (hf : f.sound = tru
   have ok := global_run_ok (k := k) (f := f) (W := W) att n _ global_init_ok
   exact (C03_same_transcript_any_inputs hk hf ok.c.reach ok.s.reach (ok.c.done dc) (ok.s.done ds) hfr hsm).1
 
+/-! ### the hypotheses are jointly satisfiable: an untampered run
+
+`symPrims` instantiates the primitive laws; `exWorld` is an honest world (full handshake with
+ServerKeyExchange, no client authentication); `forwarder` is the attacker who delivers every
+honest record unchanged and in order.  Both connections complete, every message is well framed
+and every accepted Finished value was written by the peer. -/
+
+def exWorld : World symPrims where
+  say := fun r t log => [if r.isClient then 1 else 2, UInt8.ofNat t, UInt8.ofNat log.length]
+  master := fun _ _ => (7 : Nat)
+  choice := fun _ q _ => match q with
+    | .accept => true
+    | .sendSKX => true
+    | _ => false
+
+def forwarder : Attacker where
+  next := fun outs delivered =>
+    let toS := outs.filterMap (fun p => if p.1 = Role.client then some p.2 else none)
+    let toC := outs.filterMap (fun p => if p.1 = Role.server then some p.2 else none)
+    let nS := (delivered.filter (fun p => p.1 = Role.server)).length
+    let nC := (delivered.filter (fun p => p.1 = Role.client)).length
+    match toS[nS]? with
+    | some r => some (Role.server, r)
+    | none =>
+      match toC[nC]? with
+      | some r => some (Role.client, r)
+      | none => none
+
+def exRun : Global symPrims :=
+  Global.run tlcpCodes tlcpFlags exWorld forwarder 40 (Global.init tlcpCodes exWorld)
+
+set_option maxRecDepth 100000 in
+example : exRun.c.status = .done ∧ exRun.s.status = .done ∧ exRun.c.hs.log.length = 10 ∧
+    (msgsOf exRun.c.hs.log ++ msgsOf exRun.s.hs.log).all wellFramedB = true ∧
+    (finAccepted tlcpCodes exRun.c.hs.log ++ finAccepted tlcpCodes exRun.s.hs.log).all
+      (fun vd => (finSent tlcpCodes exRun.c.hs.log ++ finSent tlcpCodes exRun.s.hs.log).contains vd) = true := by
+  decide
+
+/-- and a tampered run in which neither completes: the attacker who flips the last byte of
+the first ServerHello it forwards -/
+def flipper : Attacker where
+  next := fun outs delivered =>
+    match forwarder.next outs delivered with
+    | some (Role.client, r) =>
+      if (delivered.filter (fun p => p.1 = Role.client)).length = 0 then
+        some (Role.client, { r with payload := r.payload.dropLast ++ [0xEE] })
+      else some (Role.client, r)
+    | x => x
+
+set_option maxRecDepth 100000 in
+example :
+    let g := Global.run tlcpCodes tlcpFlags exWorld flipper 40 (Global.init tlcpCodes exWorld)
+    g.c.status ≠ .done ∧ g.s.status ≠ .done := by
+  decide
+
+/-! ### identical views -/
+
+def firstOfType (t : Nat) : List Item → Option Msg
+  | [] => none
+  | .msg m :: r => if mtype m = t then some m else firstOfType t r
+  | .ccs :: r => firstOfType t r
+
+/-- an endpoint's conclusions, read off what came from the client and what came from the
+server (for the client: what it sent / what it accepted; for the server the other way round) -/
+def viewOf (k : Codes) (fromClient fromServer : List Item) (ms : Option P.Secret) : View Msg Bytes P.Secret :=
+  { clientHello := firstOfType k.tCH fromClient
+    serverHello := firstOfType k.tSH fromServer
+    serverCertificate := firstOfType k.tCert fromServer
+    clientCertificate := firstOfType k.tCert fromClient
+    clientFinished := (firstOfType k.tFin fromClient).map mbody
+    serverFinished := (firstOfType k.tFin fromServer).map mbody
+    master := ms }
+
+def clientView (k : Codes) (c : HS P) : View Msg Bytes P.Secret := viewOf k (sentOf c.log) (acceptedOf c.log) c.ms
+def serverView (k : Codes) (s : HS P) : View Msg Bytes P.Secret := viewOf k (acceptedOf s.log) (sentOf s.log) s.ms
+
+/-- Both complete ⇒ identical views: the same two hello messages (hence the same version,
+suite, session id and application protocol — all fields of ClientHello / ServerHello), the same
+Certificate messages (peer certificates), the same two Finished values, the same master secret
+(a resumed handshake takes the peer certificates recorded with that session). -/
+theorem C03_views_agree (hk : k.ok = true) (hf : f.sound = true) {c s : HS P}
+    (hc : ReachR k f W .client c) (hs : ReachR k f W .server s)
+    (dc : c.ctl = .done) (ds : s.ctl = .done)
+    (hfr : FramedLogs c s) (hsm : SecretMaster k c s) :
+    Views (clientView k c) (serverView k s) := by
+  obtain ⟨⟨h1, h2⟩, h3⟩ := C03_same_transcript_any_inputs hk hf hc hs dc ds hfr hsm
+  simp only [logOf] at h1 h2
+  unfold Views clientView serverView
+  rw [h1, ← h2, h3]
+
+/-! ### no downgrade -/
+
+/-- Both complete ⇒ the two hello messages both endpoints hold are exactly those of the
+untampered handshake: the ClientHello the honest client generates by itself and the ServerHello
+the honest server generates in answer to exactly that ClientHello.  The negotiated tuple
+(version, suite, session id, application protocol, resumption) is a function of these two
+messages — so it is what the untampered handshake negotiates: no downgrade. -/
+theorem C03_no_downgrade (hk : k.ok = true) (hf : f.sound = true) {c s : HS P}
+    (hc : ReachR k f W .client c) (hs : ReachR k f W .server s)
+    (dc : c.ctl = .done) (ds : s.ctl = .done)
+    (hfr : FramedLogs c s) (hsm : SecretMaster k c s) :
+    (clientView k c).clientHello = some (honestCH k W) ∧
+    (clientView k c).serverHello = some (honestSH k W (honestCH k W)) ∧
+    (serverView k s).clientHello = some (honestCH k W) ∧
+    (serverView k s).serverHello = some (honestSH k W (honestCH k W)) := by
+  have ne := codesNe hk
+  have hv := C03_views_agree hk hf hc hs dc ds hfr hsm
+  obtain ⟨⟨h1, h2⟩, _⟩ := C03_same_transcript_any_inputs hk hf hc hs dc ds hfr hsm
+  simp only [logOf] at h1 h2
+  obtain ⟨rc, hrc⟩ := client_head hc
+  have tCH : mtype (honestCH k W) = k.tCH := mtype_frame ne.lt_CH _
+  -- the server answered: its history starts with the accepted ClientHello and its ServerHello
+  have hsh := server_head hs
+  rcases hsh with ⟨_, hctl⟩ | ⟨ch, rs, hrs⟩
+  · rcases hctl with hctl | ⟨a, hctl⟩ <;> rw [ds] at hctl <;> cases hctl
+  have e1 : sentOf c.log = .msg (honestCH k W) :: sentOf rc := by rw [← hrc]; rfl
+  have e2 : acceptedOf s.log = .msg ch :: acceptedOf rs := by rw [← hrs]; rfl
+  have e3 : sentOf s.log = .msg (honestSH k W ch) :: sentOf rs := by rw [← hrs]; rfl
+  have hch : ch = honestCH k W := by
+    rw [e1, e2] at h2
+    simp only [List.cons.injEq, Item.msg.injEq] at h2
+    exact h2.1
+  subst hch
+  have tSH : mtype (honestSH k W (honestCH k W)) = k.tSH := mtype_frame ne.lt_SH _
+  have s1 : (serverView k s).clientHello = some (honestCH k W) := by
+    simp [serverView, viewOf, e2, firstOfType, tCH]
+  have s2 : (serverView k s).serverHello = some (honestSH k W (honestCH k W)) := by
+    simp [serverView, viewOf, e3, firstOfType, tSH]
+  unfold Views at hv
+  rw [hv]
+  exact ⟨s1, s2, s1, s2⟩
+
+/-! ### the record-layer facts found on the real code -/
+
+/-- The one field outside the transcript (stream stack): while `haveVers` is false — the first
+record in each direction — the record-layer version is not compared with anything (it only has
+to be below 0x1000), so altering it changes nothing at all: the connection ends up in exactly
+the same state, hence the same views. -/
+theorem C03_record_version_unauthenticated (hv : f.versCheckedOnlyWhenHave = true) (c : Conn P) (r : Record) (v : Nat)
+    (h0 : c.haveVers = false) (hr : r.vers < 4096) (hv' : v < 4096) :
+    Conn.deliver k f W c { r with vers := v } = Conn.deliver k f W c r := by
+  unfold Conn.deliver Conn.headerCheck Conn.openRecord
+  simp [hv, h0, Nat.not_le.mpr hr, Nat.not_le.mpr hv']
+
+/-- … and once the version is agreed (`haveVers`), a record with any other version is refused
+with `protocol_version` whatever else it contains. -/
+theorem C03_record_version_checked_after_hello (hv : f.versCheckedOnlyWhenHave = true) (c : Conn P) (r : Record)
+    (hrun : c.status = .running) (h1 : c.haveVers = true) (hr : r.vers ≠ k.vers) :
+    Conn.deliver k f W c r = Conn.failLocal k c k.aProtoVers := by
+  unfold Conn.deliver Conn.headerCheck
+  simp [hv, h1, hr, hrun]
+
+/-- An injected warning alert (other than close_notify) in the clear is dropped on the floor:
+only the counter of useless records moves (at most `maxUselessRecords` in a row). -/
+theorem C03_warning_alert_ignored (c : Conn P) (desc : UInt8) (v : Nat)
+    (hrun : c.status = .running) (hin : c.inOn = false) (hvers : v = k.vers)
+    (hd : desc.toNat ≠ k.aCloseNotify) (hw : k.aWarning < 256) (hne : k.rtAlert ≠ k.rtApp)
+    (hlen : 2 ≤ k.maxCiphertext) (hkv : k.vers < 4096) (hret : c.retry + 1 ≤ k.maxUseless) :
+    Conn.deliver k f W c ⟨k.rtAlert, v, [UInt8.ofNat k.aWarning, desc]⟩ = { c with retry := c.retry + 1 } := by
+  have hwn : (UInt8.ofNat k.aWarning).toNat = k.aWarning := by
+    rw [Gotlcp.Lemmas.Transcript.ofNat_toNat]; omega
+  unfold Conn.deliver Conn.headerCheck Conn.openRecord Conn.dispatch Conn.onAlert
+  subst hvers
+  have h2 : ¬ (k.maxCiphertext < 2) := by omega
+  have h3 : ¬ (k.maxUseless < c.retry + 1) := by omega
+  simp [hrun, hin, hd, hne, hwn, h2, h3, Nat.not_le.mpr hkv]
+
+/-! ### the secrecy assumption, discharged symbolically for the ECC flow -/
+
+section dy
+open Gotlcp.Lemmas.TranscriptDY
+
+/-- ECC key exchange on a term algebra: whatever the honest endpoints put on the wire reveals
+the pre-master secret only under the server's encryption key (`aenc pkS pms` — the
+ClientKeyExchange) and contains PRF(master, x) only for the `x` they computed Finished values
+over (`Fin`).  Then the Dolev–Yao attacker (pairing, projection, encryption, decryption with
+every key but the server's private key, PRF application, all public values) can derive
+neither the pre-master secret nor the master secret, and every `PRF(master, x)` it can derive
+has an `x` an honest endpoint used: it cannot produce PRF(master, ·) values of its own.
+When the attacker substitutes the certificate (so that the client encrypts under another key)
+the hypothesis `hK` fails for the ClientKeyExchange — that case is C02's. -/
+theorem C03_secret_master_ecc {seed : Tm} {Fin K : Tm → Prop} (hK : ∀ t, K t → Ok seed Fin t) :
+    ¬ Derivable K .pms ∧ ¬ Derivable K (master seed) ∧
+    ∀ x, Derivable K (.prf (master seed) x) → Fin x := by
+  refine ⟨fun h => derivable_ok hK h, fun h => (derivable_ok hK h).1 rfl, fun x h => (derivable_ok hK h).2 rfl⟩
+
+/-- non-vacuity: the wire of an ECC handshake (ClientKeyExchange = pre-master under the
+server's key, two Finished values, public hellos) satisfies the hypothesis, and the attacker
+does derive the honest Finished value it saw -/
+example :
+    let seed := Tm.pub 0
+    let Fin : Tm → Prop := fun x => x = .pub 10 ∨ x = .pub 11
+    let K : Tm → Prop := fun t => t = .aenc .pkS .pms ∨ t = .prf (master seed) (.pub 10) ∨
+      t = .prf (master seed) (.pub 11) ∨ t = .pair (.pub 1) (.pub 2)
+    (∀ t, K t → Ok seed Fin t) ∧ Derivable K (.prf (master seed) (.pub 10)) := by
+  refine ⟨?_, Derivable.known (Or.inr (Or.inl rfl))⟩
+  intro t ht
+  rcases ht with rfl | rfl | rfl | rfl <;> simp [Ok, master]
+
+end dy
+
 /-! ### the facts the theorems rely on -/
 
 /-- The regenerated source facts: the nine handshake type codes are pairwise different bytes,
@@ -105,7 +307,8 @@ written / read with the hash or added right after, Finished and CertificateVerif
 `nil` and added only after the check, Finished compared over its whole length); the stream
 stack keeps the record-layer guards (version compared only under `haveVers`, ChangeCipherSpec
 only when expected and with an empty handshake buffer, no handshake record while a
-ChangeCipherSpec is expected).  Nothing the extractor looks for is missing. -/
+ChangeCipherSpec is expected); the datagram stack keeps the cookie prelude (first ClientHello,
+HelloVerifyRequest) out of the transcript.  Nothing the extractor looks for is missing. -/
 theorem C03_facts :
     tlcpCodes.ok = true ∧ dtlcpCodes.ok = true ∧
     tlcpFlags.sound = true ∧ dtlcpFlags.sound = true ∧
@@ -113,7 +316,12 @@ theorem C03_facts :
     dtlcpFlags.versCheckedOnlyWhenHave = true ∧ dtlcpFlags.ccsNeedsExpect = true ∧
     dtlcpFlags.hsRefusedWhenCCSExpected = true ∧
     Facts.tlcp.trClientHandshake = ["W:hello:nil", "R:nil"] ∧
+    -- datagram stack: every ClientHello of the cookie loop is written, and every answer
+    -- (HelloVerifyRequest or ServerHello) read, with `nil`; HelloVerifyRequest is written with
+    -- `nil`; only the final `hs.hello` / `hs.clientHello` enters the transcript
     Facts.dtlcp.trClientHandshake = ["W:hello:nil", "R:nil"] ∧
+    Facts.dtlcp.trServerHandshake = ["W:hvr:nil"] ∧
+    Facts.dtlcp.trClientHSAdds = ["hs.hello", "hs.serverHello"] ∧
     Facts.missing = [] := by decide
 
 end Gotlcp.Props.C03
